@@ -41,7 +41,7 @@ Lemma current_creates :
               ("EnterSubscribe", "PublisherEndpoints", IfAbsent);
               ("EnterTable", "Types", IfAbsent);
               ("EnterTable", "Types", IfAbsent);
-              ("EnterUnion", "Types", Always);
+              ("EnterUnion", "Types", Always); ("EnterView", "Views", Always);
               ("ExitAlias", "Types", Always) ].
 Proof. reflexivity. Qed.
 
@@ -65,4 +65,27 @@ Proof. reflexivity. Qed.
 Lemma current_anno_rule : anno_rule = FirstNonEmptyWins.
 Proof. reflexivity. Qed.
 Lemma current_field_redecl : field_redecl = FieldMerged.
+Proof. reflexivity. Qed.
+
+(* round 3, second pass.  EnterEvent REPLACES the endpoint's attributes when the event line has some (event_f);
+   EnterMethod_def starts from {patterns: [rest]}, merges the attribute maps of the enclosing paths outermost first
+   (s.rest_attrs: pushed by EnterRest_endpoint, popped by ExitRest_endpoint, reset per application), then the method's
+   own, then merges the result into the endpoint (rest_eps / method_f) *)
+Lemma current_event_attrs :
+  event_attrs = [ "ctx.Attribs_or_modifiers()!=nil&&ctx.Name_str()!=nil => ep.Attrs=s.makeAttributeArray(ctx.Attribs_or_modifiers().( *parser.Attribs_or_modifiersContext))" ].
+Proof. reflexivity. Qed.
+
+Lemma current_rest_inherit :
+  rest_inherit = [ "for_,parentAttrs:=ranges.rest_attrs{mergeAttrs(parentAttrs,attrs)}";
+                   "ifctx.Attribs_or_modifiers()!=nil{mergeAttrs(s.makeAttributeArray(ctx.Attribs_or_modifiers().( *parser.Attribs_or_modifiersContext)),attrs)}";
+                   "ifrestEndpoint.Attrs==nil{restEndpoint.Attrs=attrs}else{mergeAttrs(attrs,restEndpoint.Attrs)}" ]
+  /\ rest_attrs_stack = [ "EnterApp_decl: s.rest_attrs=[]map[string]*sysl.Attribute{}";
+                          "EnterRest_endpoint: s.rest_attrs=append(s.rest_attrs,s.makeAttributeArray(attribs))";
+                          "EnterRest_endpoint: s.rest_attrs=append(s.rest_attrs,attrs)";
+                          "ExitRest_endpoint: s.rest_attrs=s.rest_attrs[:len(s.rest_attrs)-1]" ].
+Proof. split; reflexivity. Qed.
+
+(* a compiled module of the import closure is merged with mergo.Merge WITHOUT options (mergo_state: what the module
+   built so far has stays, empty values are filled) - the only use of mergo in pkg/parse/parse.go *)
+Lemma current_pb_merges : pb_merges = [ "parseSpecs: mergo.Merge(listener.module,v.syslProtoImport)" ].
 Proof. reflexivity. Qed.
